@@ -374,13 +374,19 @@ void harness(void)
 	int i, k;
 	for (i = 0; i < MAXF; i++)
 		snprintf(fname[i], sizeof(fname[i]), "f%d", i + 1);
+	/* start the editor first (shared by all paths); the files get their symbolic first letters afterwards */
+	env_mkfile(fname[0], "ax1\nl2\nl3\n", 10, 5);
+	exh_start(files);
 	for (i = 0; i < NFILES && i < MAXF; i++) {
 		unsigned char c = i < 4 ? symx_u8("c") : 'a';
 		symx_assume(c == 'a' || c == 'b');
 		snprintf(content, sizeof(content), "%cx%d\nl2\nl3\n", c, i + 1);
 		env_mkfile(fname[i], content, strlen(content), 5);
+		if (i == 0) {
+			lbuf_edit(xb, content, 0, lbuf_len(xb));
+			lbuf_saved(xb, 1);
+		}
 	}
-	exh_start(files);
 	cur = 0;
 	opened(0);
 	mru_front(0);
